@@ -782,16 +782,16 @@ def search(run, rng, quick):
 
     # A1: integrals -> dense
     sizes = [1, 2, 2, 2, 3, 3, 3] if quick else [1, 1, 2, 2, 2, 2, 3, 3, 3, 3, 3, 3, 4, 4, 4]
-    reps = 3 if quick else 6
+    reps = 5 if quick else 10
     for _ in range(reps):
         for n in sizes:
             note(check_qc_dense(run, rng, n))
     # A2: words
-    k = check_simplify_words(run, rng, 150 if quick else 1500)
-    evals += 150 if quick else 1500
+    k = check_simplify_words(run, rng, 400 if quick else 3000)
+    evals += 400 if quick else 3000
     run.count("A2:nontrivial-words", k)
     # A3
-    for _ in range(25 if quick else 200):
+    for _ in range(60 if quick else 400):
         if check_qc_spinorb(run, rng):
             distinct.add(("A3", evals))
         evals += 1
@@ -799,13 +799,13 @@ def search(run, rng, quick):
     kinds = ["qc", "qc", "qc-sigma", "qc-sigma", "spin", "spin-u1", "eph", "eph", "eph-2qn"]
     probe_swap_sequences(run)
     evals += 3
-    nb1 = 36 if quick else 400
+    nb1 = 90 if quick else 700
     for it in range(nb1):
         note(check_mpo_swaps(run, rng, kinds[it % len(kinds)]))
-    nb2 = 45 if quick else 500
+    nb2 = 108 if quick else 900
     for it in range(nb2):
         note(check_pair_sweeps(run, rng, kinds[it % len(kinds)]))
-    nb3 = 9 if quick else 90
+    nb3 = 18 if quick else 150
     for it in range(nb3):
         note(check_gs_with_ofs(run, rng, kinds[it % len(kinds)]))
         note(check_evolve_with_ofs(run, rng, kinds[(it + 4) % len(kinds)]))
